@@ -174,6 +174,9 @@ pub struct World {
     pub channels: Vec<Option<Arc<acts::Channel>>>,
     pub qidx: usize,
     pub ops_done: u32,
+    /// client reactions so far, and how many time_ops have been applied
+    pub reacts_done: u32,
+    pub time_ops_done: usize,
     pub adv_done: u32,
     pub ticks_left: u32,
     pub total_steps: u64,
@@ -235,6 +238,8 @@ impl World {
             channels: vec![],
             qidx: 0,
             ops_done: 0,
+            reacts_done: 0,
+            time_ops_done: 0,
             adv_done: 0,
             ticks_left: sc.ticks,
             total_steps: 0,
@@ -896,10 +901,31 @@ impl World {
             if self.adversary_act() {
                 continue;
             }
+            // time that passes before the client's next action (only while the client has something to answer)
+            let has_open = !self.rec.lock().unwrap().open.is_empty();
+            if has_open {
+                let due: Option<TimeOp> = self.sc.time_ops.iter().skip(self.time_ops_done).next().filter(|o| o.before_action <= self.reacts_done).cloned();
+                if let Some(op) = due {
+                    self.time_ops_done += 1;
+                    vsim::jump_us(op.jump_us);
+                    vsim::log(&format!("JUMP {}us", op.jump_us));
+                    {
+                        let mut g = self.rec.lock().unwrap();
+                        let qidx = self.qidx;
+                        g.rec.ops.push(OpRec { seq: vsim::seq(), qidx, op: "jump".into(), detail: op.jump_us.to_string() });
+                        g.rec.count("fault.jump");
+                    }
+                    if self.tick() {
+                        self.rec.lock().unwrap().rec.count("fault.tick_while_open");
+                    }
+                    continue;
+                }
+            }
             if let Some(oa) = self.pick_open() {
                 let engine = self.engine().clone();
                 let client = self.sc.client.clone();
                 react(&engine, &self.rec, &client, &oa, true);
+                self.reacts_done += 1;
                 continue;
             }
             // later starts / faults still to come?
